@@ -25,7 +25,7 @@ PROP = {'drive': ['Faults'],
                        'C18_dichotomy',
                        'C18_type_asserts'],
  # budget = number of corpus fonts / table sets; every fault point k of each is enumerated
- 'areas': [('faults', 8, 40)],
+ 'areas': [('faults', 8, 20)],
  'thorough_seeds': 1,
  'rule': 'one case line = one block of up to 256 consecutive fault points k of one font/table set, one destination or '
          'source kind (distribution groups count single fault points); non-trivial = at least two tables',
